@@ -17,7 +17,7 @@ ClauseOf(c) == CASE c.m \in {"select", "selectstr", "distinct"} -> "SELECT" [] c
                  [] c.m = "prewhere" -> "PREWHERE" [] c.m = "groupby" -> "GROUP BY" [] c.m = "having" -> "HAVING" [] c.m \in {"orderby", "orderbystr"} -> "ORDER BY" [] c.m = "groupbystr" -> "GROUP BY"
                  [] c.m \in {"limit", "fetch_next"} -> "LIMIT" [] c.m = "offset" -> "OFFSET" [] c.m = "join" -> "JOIN" [] c.m = "into" -> "INTO"
                  [] c.m \in {"insert", "replace"} -> "VALUES" [] c.m = "columns" -> "COLUMNS" [] c.m = "update" -> "UPDATE" [] c.m = "set" -> "SET"
-                 [] c.m = "delete" -> "DELETE" [] c.m \in {"on_conflict", "do_nothing", "do_update"} -> "ON CONFLICT" [] OTHER -> c.m
+                 [] c.m = "delete" -> "DELETE" [] c.m \in {"on_conflict", "do_nothing", "do_update"} -> "ON CONFLICT" [] c.m = "returning" -> "RETURNING" [] OTHER -> c.m
 \* the calls of one order grouped per clause (relative order kept)
 \* (o.calls = fixed family prefix, then one call per element of o.perm)
 PLen(o) == Len(o.calls) - Len(o.perm)
